@@ -333,7 +333,13 @@ func c33Run(w *vWriter, in c33Input) {
 			w.Emit(vc)
 			return
 		}
-		after, err = vfDump(s2)
+		// the entries after the newest snapshot are applied once the node leads again
+		if _, err = s2.WaitForLeader(10 * time.Second); err == nil {
+			err = s2.raft.Barrier(10 * time.Second).Error()
+		}
+		if err == nil {
+			after, err = vfDump(s2)
+		}
 		if err == nil {
 			conf, err = vfConfig(s2)
 		}
@@ -421,7 +427,7 @@ func TestVerif_C33(t *testing.T) {
 	}
 	rng := vRand()
 	ins := c33Corpus()
-	n := vN(70, 1500)
+	n := vN(90, 1500)
 	for i := 0; i < n; i++ {
 		ins = append(ins, c33Gen(rng))
 	}
